@@ -184,7 +184,7 @@ func cellFromID(id string) Cell {
 	return c
 }
 
-var ctxNames = map[string]string{"as": "assign", "def": "define", "opas": "op-assign", "ret": "return", "if": "if", "ifn": "if-not", "ifna": "for-not-and", "iface": "interface", "stmt": "statement", "dump": "dump"}
+var ctxNames = map[string]string{"as": "assign", "def": "define", "opas": "op-assign", "ret": "return", "reti": "return-interface", "if": "if", "ifn": "if-not", "ifna": "for-not-and", "iface": "interface", "stmt": "statement", "dump": "dump"}
 
 func symptom(nat, ya string, natOK, yaOK bool) string {
 	switch {
